@@ -126,41 +126,49 @@ def strList : List J → List String
   | .str s :: r => s :: strList r
   | _ :: r => strList r
 
-/-- the claims checks; `now` is the clock. Arithmetic is checked (`panic` on overflow), as in a
-build with overflow checks — D21, the known finding of C10. -/
+/-- `exp`: `now <= exp + leeway`, checked arithmetic (`panic` on overflow: D21) -/
+def expStep (o : JwtOpts) (claims : List (String × J)) (now : Nat) : Outcome Unit :=
+  if o.validateExp then
+    match (aget "exp" claims).bind asU64 with
+    | some ts => if ts + o.leeway ≥ u64Max then .panic
+                 else if now ≤ ts + o.leeway then .ok () else .err .jwt
+    | none => .err .jwt
+  else .ok ()
+
+/-- `nbf`: `now >= nbf - leeway`, checked arithmetic -/
+def nbfStep (o : JwtOpts) (claims : List (String × J)) (now : Nat) : Outcome Unit :=
+  if o.validateNbf then
+    match (aget "nbf" claims).bind asU64 with
+    | some ts => if ts < o.leeway then .panic
+                 else if now ≥ ts - o.leeway then .ok () else .err .jwt
+    | none => .err .jwt
+  else .ok ()
+
+def strStep (claims : List (String × J)) (name : String) (expected : Option String) : Outcome Unit :=
+  match expected with
+  | none => .ok ()
+  | some e => if ((aget name claims).bind J.asStr) = some e then .ok () else .err .jwt
+
+def audStep (o : JwtOpts) (claims : List (String × J)) : Outcome Unit :=
+  match o.audiences with
+  | none => .ok ()
+  | some exp =>
+    match aget "aud" claims with
+    | some (.str a) => if a ∈ exp then .ok () else .err .jwt
+    | some (.arr xs) => if (strList xs).any (fun a => exp.contains a) then .ok () else .err .jwt
+    | _ => .err .jwt
+
+def reqStep (o : JwtOpts) (claims : List (String × J)) : Outcome Unit :=
+  match o.required with
+  | none => .ok ()
+  | some l => if l.all (fun c => (aget c claims).isSome) then .ok () else .err .jwt
+
+/-- the claims checks, in the library's order; `now` is the clock. Arithmetic is checked (`panic`
+on overflow), as in a build with overflow checks — D21, the known finding of C10. -/
 def validateClaims (o : JwtOpts) (claims : List (String × J)) (now : Nat) : Outcome Unit :=
-  let expStep : Outcome Unit :=
-    if o.validateExp then
-      match (aget "exp" claims).bind asU64 with
-      | some ts => if ts + o.leeway ≥ u64Max then .panic
-                   else if now ≤ ts + o.leeway then .ok () else .err .jwt
-      | none => .err .jwt
-    else .ok ()
-  let nbfStep : Outcome Unit :=
-    if o.validateNbf then
-      match (aget "nbf" claims).bind asU64 with
-      | some ts => if ts < o.leeway then .panic
-                   else if now ≥ ts - o.leeway then .ok () else .err .jwt
-      | none => .err .jwt
-    else .ok ()
-  let strStep (name : String) (expected : Option String) : Outcome Unit :=
-    match expected with
-    | none => .ok ()
-    | some e => if ((aget name claims).bind J.asStr) = some e then .ok () else .err .jwt
-  let audStep : Outcome Unit :=
-    match o.audiences with
-    | none => .ok ()
-    | some exp =>
-      match aget "aud" claims with
-      | some (.str a) => if a ∈ exp then .ok () else .err .jwt
-      | some (.arr xs) => if (strList xs).any (fun a => exp.contains a) then .ok () else .err .jwt
-      | _ => .err .jwt
-  let reqStep : Outcome Unit :=
-    match o.required with
-    | none => .ok ()
-    | some l => if l.all (fun c => (aget c claims).isSome) then .ok () else .err .jwt
-  expStep.bind fun _ => nbfStep.bind fun _ => (strStep "iss" o.issuer).bind fun _ =>
-    (strStep "sub" o.subject).bind fun _ => audStep.bind fun _ => reqStep
+  (expStep o claims now).bind fun _ => (nbfStep o claims now).bind fun _ =>
+    (strStep claims "iss" o.issuer).bind fun _ => (strStep claims "sub" o.subject).bind fun _ =>
+      (audStep o claims).bind fun _ => reqStep o claims
 
 /-- key families of `VerifyingKey` -/
 inductive KeyFam where
